@@ -293,9 +293,15 @@ class Adapter:
         return set(self.reg(e, o.id, o).id for o in objs)
 
     # -- the calls -------------------------------------------------------------------------------
+    touched = False     # has the current session loaded or changed anything (bulk deletes bypass cached objects)
+
     def call(self, ev):
         """Execute the action described by the spec's ev record; return (outcome, ret_set)."""
         op = ev['op']
+        if op in ('Begin', 'End', 'EndExc', 'Rollback'):
+            self.touched = False
+        elif op != 'BulkDelete':
+            self.touched = True
         try:
             ret = getattr(self, 'do_' + op)(ev)
             return 'ok', (ret if ret is not None else set())
@@ -466,6 +472,14 @@ class Adapter:
         o = self.obj(ev['e'], ev['k'])
         o.delete()
 
+    def do_BulkDelete(self, ev):
+        A = self.w.A
+        a = ev['k']
+        if self.rng.randrange(2):
+            select(x for x in A if x.id == a).delete(bulk=True)
+        else:
+            A.select(lambda x: x.id == a).delete(bulk=True)
+
     # reads
     def do_GetV(self, ev):
         return {self.obj('A', ev['k']).v or 0}
@@ -615,6 +629,7 @@ class Adapter:
     # -- whole-session projection through the public API -------------------------------------------
     def project(self, cur, why):
         """Compare everything the program can observe with the spec's `cur` (C10 C11 C12 C13)."""
+        self.touched = True
         try:
             return self._project(cur, why)
         finally:
@@ -720,7 +735,7 @@ def mismatch_category(ev_key, outs_expected, out, ret):
         return 'keys' if ('Integrity' in outs_expected or out == 'Integrity') else 'flush'
     if 'CacheIndexError' in outs_expected or out == 'CacheIndexError':
         return 'keys'
-    if op in ('Delete', 'CollRemove', 'CollClear'):
+    if op in ('Delete', 'CollRemove', 'CollClear', 'BulkDelete'):
         return 'delete'
     if out == 'Integrity':
         return 'flush'
@@ -821,7 +836,7 @@ class Driver:
                 elif op in ('CollAdd', 'CollRemove', 'LAdd', 'LRemove'):
                     ids_a.append(kk)
                     ids_b.append(x)
-                elif op in ('Delete', 'Find'):
+                elif op in ('Delete', 'Find', 'BulkDelete'):
                     (ids_a if e == 'A' else ids_b).append(kk)
                 if all(i == fa for i in ids_a) and all(i == fb for i in ids_b):
                     w *= 6.0
@@ -847,6 +862,9 @@ class Driver:
         view = self.agreed(belief, 'view')
         if view is None or not self.can_project(belief):
             return 0
+        if key[0] == 'BulkDelete' and when == 'before':
+            return 0        # a bulk delete is only modelled in a session that holds no objects yet
+        ad.touched = True
         w = self.world
         op, e, kk, x, y = key
         ids_a, ids_b = set(), set()
@@ -867,10 +885,10 @@ class Driver:
         elif op in ('CollAdd', 'CollRemove', 'LAdd', 'LRemove'):
             ids_a.add(kk)
             ids_b.add(x)
-        elif op == 'Delete':
+        elif op in ('Delete', 'BulkDelete'):
             (ids_a if e == 'A' else ids_b).add(kk)
         liveA, liveB = set(view['liveA']), set(view['liveB'])
-        if op in ('Delete', 'SetRef', 'SetMany', 'CollClear', 'CollRemove', 'Create'):
+        if op in ('Delete', 'BulkDelete', 'SetRef', 'SetMany', 'CollClear', 'CollRemove', 'Create'):
             # relatives may be affected (cascade, unlinking, one-to-one rivals)
             ids_a |= liveA
             ids_b |= liveB
@@ -947,6 +965,10 @@ class Driver:
                     break
                 if not acts:
                     break
+                if ad.touched or probe == 'prime':
+                    acts = {k: v for k, v in acts.items() if k[0] != 'BulkDelete'}
+                    if not acts:
+                        break
                 if plan is not None:
                     key = tuple(plan[step])
                     if key not in acts:
